@@ -259,8 +259,18 @@ class _Alias:
 
 
 class _Filter:
-    def __init__(self, rep, keep, rename):
+    def __init__(self, rep, keep, rename, skip_known=False):
         self.rep, self.keep, self.rename = rep, keep, rename
+        self.known = set()
+        if skip_known:
+            # a recorded finding is printed under its own property only; anything ELSE the imported rule reports is shown here too
+            import json as _json
+            import os as _os
+            try:
+                kf = _json.load(open(_os.path.join(_os.path.dirname(_os.path.dirname(_os.path.abspath(__file__))), "known_findings.json")))
+                self.known = {k["key"] for k in kf.get("known", [])}
+            except Exception:
+                self.known = set()
 
     def rule(self, rid, text):
         if rid in self.keep:
@@ -271,6 +281,8 @@ class _Filter:
         if name in ("ok", "violation", "unresolved", "floor", "expect"):
             def g(rule, *a, **kw):
                 if rule in self.keep:
+                    if name == "violation" and a and (a[0] in self.known or ("%s|%s" % (rule, a[0])) in self.known):
+                        return True
                     return f(self.rename + rule, *a, **kw)
                 if name == "expect":
                     return bool(a[1]) if len(a) > 1 else True      # keep control flow of the imported module intact
